@@ -314,12 +314,35 @@ def check_fifo(eng, run):
     facts["cancelled-heir-forwards-wakeup"] = fwd
     # newcomers queue behind existing waiters
     first_if = next((s for s in acq.node.body if isinstance(s, ast.If)), None)
-    facts["no-barging"] = first_if is not None and "self._locked" in ast.unparse(first_if.test) and "self._waiters" in ast.unparse(first_if.test) and isinstance(first_if.test, ast.BoolOp) and isinstance(first_if.test.op, ast.Or)
+    facts["no-barging"] = first_if is not None and _queues_when_held_or_waited(first_if)
     facts["release-unlocked-raises"] = any(isinstance(n, ast.Raise) for n in own_nodes(rel.node))
     for k, v in facts.items():
         if not v:
             run.finding("C12.fifo", acq if k not in ("wake-head",) else wake, (acq if k != "wake-head" else wake).node, f"FairLock lost its first-come-first-served shape: {k}")
         run.ob("C12.fifo", f"FairLock:{k}", v)
+
+
+def _queues_when_held_or_waited(iff: ast.If) -> bool:
+    """the first decision of acquire(): the caller queues when `self._locked or self._waiters`; spelled either way round - the
+    waiting code under `if locked or waiters:` or the fast path as a guard clause `if not locked and not waiters: ...; return`"""
+    from sa.norm import strip_not
+    t, neg = strip_not(iff.test)
+    if not isinstance(t, ast.BoolOp):
+        return False
+    lits = set()
+    for v in t.values:
+        a, n_ = strip_not(v)
+        lits.add((dotted(a), n_))
+    is_or = isinstance(t.op, ast.Or)
+    want = {("self._locked", False), ("self._waiters", False)}
+    if is_or and not neg and lits == want:
+        return True  # `if self._locked or self._waiters:` <wait>
+    fast_guard = (is_or and neg and lits == want) or (not is_or and not neg and lits == {(k, True) for k, _ in want})
+    if fast_guard:
+        # `if not (locked or waiters):` / `if not locked and not waiters:` - the arm is the fast path and leaves the function
+        takes = any(isinstance(s_, ast.Assign) and dotted(s_.targets[0]) == "self._locked" and isinstance(s_.value, ast.Constant) and s_.value.value is True for s_ in iff.body)
+        return takes and isinstance(iff.body[-1], ast.Return) and not iff.orelse and not any(isinstance(x, ast.Await) for s_ in iff.body for x in ast.walk(s_))
+    return False
 
 
 def check_lock_with_timeout(eng, run):
